@@ -30,6 +30,11 @@ statement, (2) the error code / data the statement returns, (3) the FILES output
                  re-capitalisations. Existing programs are also read (LOAD/RUN/CHAIN/MERGE) and overwritten (SAVE)
                  under re-capitalised spellings, dot-less and with extension, padded with trailing blanks whenever
                  the interpreter accepts the padded full name in OPEN ... FOR INPUT.
+ paths:          the same statements addressed through paths (C:, C:\\, \\, .\\, ..\\, sub-directories incl. ones with a
+                 dot in their name, mixtures, from cwd = root / SUBDIR / DIR.EXT): where OPEN <path+base> FOR OUTPUT
+                 puts D/H, SAVE[,A|,P] and LIST ,file must put D/H.BAS (dot-less base) or D/H (dotted base); LOAD /
+                 RUN / CHAIN / MERGE read it back under the same path, a re-capitalised path and every other prefix by
+                 which OPEN finds the .BAS file; BSAVE/BLOAD use the same directory and the bare-name extension rule.
 """
 import os
 import random
@@ -70,7 +75,10 @@ META = {
                                  'listed_names_reopened', 'program_read_by_load', 'program_read_by_run',
                                  'program_read_by_chain', 'program_read_by_merge', 'recap_resaves_ok',
                                  'padded_program_names_ok', 'special_program_names_saved',
-                                 'special_program_names_rejected_like_data', 'special_bsave_bload_ok']},
+                                 'special_program_names_rejected_like_data', 'special_bsave_bload_ok', 'path_programs_saved',
+                                 'path_programs_saved_through_dotted_path', 'path_programs_read_back',
+                                 'path_programs_read_through_other_path', 'path_specs_rejected_like_data',
+                                 'path_bsave_bload_ok']},
 }
 
 LETTERS = b'ABCDEFGHIJKLMNOPQRSTUVWXYZ'
@@ -198,8 +206,24 @@ PRE_FIXED = [
     ('MixedCas.Txt', False), ('lower.dat', False), ('UPPER.TXT', False), ('NOEXT', False), ('with spc.x', False),
     ('LongFileName.text', False), ('NoExtLongName', False), ('x.toolong', False), ('a+b.txt', False),
     ('café.txt', False), ('.hidden', False), ('two.dots.x', False), ('{~}.`1', False),
-    ('SUBDIR', True), ('LongDirectoryName', True), ('lowdir', True),
+    ('SUBDIR', True), ('LongDirectoryName', True), ('lowdir', True), ('DIR.EXT', True), ('Mixed.Dir', True),
 ]
+
+# path prefixes for the default-extension statements (directories of PRE_FIXED; cwd = root, SUBDIR or DIR.EXT)
+PATH_PREFIXES = [b'C:', b'C:\\', b'\\', b'.\\', b'..\\', b'SUBDIR\\', b'SUBDIR\\..\\', b'DIR.EXT\\', b'\\DIR.EXT\\',
+                 b'C:DIR.EXT\\', b'C:\\SUBDIR\\..\\DIR.EXT\\', b'.\\SUBDIR\\', b'SUBDIR\\.\\', b'DIR.EXT\\..\\SUBDIR\\',
+                 b'lowdir\\', b'LOWDIR\\..\\', b'..\\..\\', b'.\\.\\', b'c:.\\', b'Dir.Ext\\.\\', b'MIXED.DIR\\', b'mixed.dir\\..\\',
+                 b'..\\DIR.EXT\\', b'..\\SUBDIR\\', b'\\SUBDIR\\', b'C:..\\', b'DIR.EXT\\.\\..\\', b'A:', b'NODIR\\', b'NO.DIR\\']
+PATH_CWDS = [b'', b'SUBDIR', b'DIR.EXT']
+
+
+def gen_prefix(rng):
+    p = rng.choice([b'', b'', b'C:', b'c:', b'\\', b'C:\\'])
+    for _ in range(rng.choice([0, 1, 1, 2, 2, 3, 4])):
+        p += rng.choice([b'.', b'.', b'..', b'..', b'SUBDIR', b'subdir', b'DIR.EXT', b'Dir.Ext', b'lowdir', b'LOWDIR', b'Mixed.Dir',
+                         b'MIXED.DIR']) + b'\\'
+    return p
+
 
 
 def parse_files(out):
@@ -919,6 +943,183 @@ class Mount(object):
             ok = self.special_bsave(rng, name, cls, data_code, accepted) and ok
         return ok
 
+    # -- default-extension statements addressed through paths -------------------------------------------------
+    def tree(self):
+        out = set()
+        for d, dirs, files in os.walk(self.dir):
+            rel = os.path.relpath(d, self.dir)
+            for n in dirs + files:
+                out.add(os.path.normpath(os.path.join(rel, n)))
+        return out
+
+    def _cleanup_tree(self, before):
+        try:
+            self.box.ex(b'CLOSE')
+        except self.harness.Internal:
+            pass
+        for e in sorted(self.tree() - before, reverse=True):
+            p = os.path.join(self.dir, e)
+            try:
+                if os.path.isdir(p):
+                    shutil.rmtree(p)
+                else:
+                    os.remove(p)
+            except OSError:
+                pass
+
+    def path_program(self, rng, cwd, prefix, base):
+        """
+        SAVE [,A|,P] / LIST ,file and LOAD / RUN / CHAIN / MERGE (and BSAVE / BLOAD) of `prefix + base`.
+        Reference = the data-file statement with the same path: where OPEN <prefix+base> FOR OUTPUT puts host
+        file D/H, the program statements must put D/H (base has a dot) or D/H.BAS (no dot), and read it back
+        under re-capitalised spellings of the whole path and through every other prefix by which
+        OPEN <prefix'+H.BAS> FOR INPUT finds it.
+        """
+        res = self.res
+        spec = prefix + base
+        case = {'op': 'path-program', 'cwd': cwd, 'path': spec}
+        res.case(('path-program', cwd, spec))
+        before = self.tree()
+        ok = True
+        try:
+            if cwd:
+                c0, _ = self.ex(b'CHDIR N$', case, N=cwd)
+                if c0 != 0:
+                    return True
+            # reference: data file through the same path
+            c = self.content()
+            dcode, out = self.ex(b'OPEN N$ FOR OUTPUT AS 1:PRINT#1,C$:CLOSE', case, N=spec, C=c)
+            if dcode is None:
+                return False
+            dnew = self.tree() - before
+            self._cleanup_tree(before)
+            res.count('path_specs_tried')
+            if dcode == 0 and len(dnew) != 1:
+                return True
+            want = None
+            if dcode == 0:
+                dfile = sorted(dnew)[0]
+                ddir, h = os.path.split(dfile)
+                dotted = b'.' in base
+                want = os.path.normpath(os.path.join(ddir, h if dotted else h + '.BAS'))
+            how = rng.choice(['save', 'save', 'save_a', 'save_p', 'list'])
+            self.serial += 1
+            marker = b'VFMARK%d' % self.serial
+            try:
+                self.box.ex(b'NEW')
+                self.box.ex(b'10 REM ' + marker)
+                self.box.ex(b'20 A=%d' % self.serial)
+            except self.harness.Internal as e:
+                res.violation(e.key, str(e), case)
+                return False
+            stmt = {'save': b'SAVE N$', 'save_a': b'SAVE N$,A', 'save_p': b'SAVE N$,P', 'list': b'LIST ,N$'}[how]
+            case['statement'] = stmt
+            code, out = self.ex(stmt, case, N=spec)
+            if code is None:
+                return False
+            new = self.tree() - before
+            if dcode != 0:
+                if code == 0 or new:
+                    res.violation('defext:name-rejected-as-data-file-accepted-as-program-file',
+                                  'cwd %r: OPEN %r FOR OUTPUT gave error %d, but %s gave %s and created %r' % (
+                                      cwd, spec, dcode, stmt.decode(), 'no error' if code == 0 else 'error %d' % code, sorted(new)), case)
+                    ok = False
+                else:
+                    res.count('path_specs_rejected_like_data')
+                return ok
+            if code != 0:
+                res.violation('defext:name-accepted-as-data-file-rejected-as-program-file',
+                              'cwd %r: OPEN %r FOR OUTPUT created %r, but %s gives error %d' % (cwd, spec, dfile, stmt.decode(), code), case)
+                return False
+            if new != {want}:
+                got = sorted(new)
+                if not dotted and new == {os.path.normpath(dfile)}:
+                    key = 'bas:extension-not-added-to-dotless-name'
+                elif dotted and new == {os.path.normpath(dfile) + '.BAS'}:
+                    key = 'bas:extension-added-to-dotted-name'
+                elif len(new) == 1 and os.path.basename(got[0]) == os.path.basename(want):
+                    key = 'defext:program-file-in-other-directory-than-data-file'
+                else:
+                    key = 'defext:program-file-mapped-to-other-host-name-than-data-file'
+                res.violation(key, 'cwd %r: OPEN %r FOR OUTPUT created %r; %s with the same path created %r, expected %r' % (
+                    cwd, spec, dfile, stmt.decode(), got, want), case)
+                return False
+            res.count('path_programs_saved')
+            if b'.' in prefix:
+                res.count('path_programs_saved_through_dotted_path')
+            # read back: the same path re-capitalised, and every other prefix that reaches the file as a data file
+            full = os.path.basename(want).encode('ascii')
+            readers = ['load', 'run', 'chain'] + (['merge'] if how in ('save_a', 'list') else [])
+            spellings = [(spec, 'same-path'), (recap(rng, spec), 'recap')]
+            others = [q for q in rng.sample(PATH_PREFIXES, 6) + [b''] if q != prefix]
+            for q in others:
+                c2, _ = self.ex(b'OPEN N$ FOR INPUT AS 1', case, N=q + full)
+                if c2 == 0:
+                    spellings.append((recap(rng, q + base), 'other-path'))
+            for sp, what in spellings:
+                kind = rng.choice(readers)
+                try:
+                    self.box.ex(b'NEW')
+                except self.harness.Internal as e:
+                    res.violation(e.key, str(e), case)
+                    return False
+                code2, out2 = self.ex(self.LOADERS[kind], case, N=sp)
+                if code2 is None:
+                    return False
+                listing = b''
+                if code2 == 0 and how != 'save_p':
+                    try:
+                        listing = self.box.ex(b'LIST')
+                    except self.harness.Internal as e:
+                        res.violation(e.key, str(e), case)
+                        return False
+                if code2 != 0 or (how != 'save_p' and marker not in listing):
+                    res.violation('defext:program-saved-through-path-not-read-back-by-%s' % what,
+                                  'cwd %r: %s %r created %r, but %s %r gives %s' % (
+                                      cwd, stmt.decode(), spec, want, kind.upper(), sp,
+                                      ('error %d' % code2) if code2 else ('program %r' % listing[:60])), case)
+                    ok = False
+                    break
+                res.count('path_programs_read_back')
+                if what == 'other-path':
+                    res.count('path_programs_read_through_other_path')
+            try:
+                self.box.ex(b'NEW')
+            except self.harness.Internal:
+                pass
+            # BSAVE / BLOAD through the same path: same directory, same extension rule as for a bare name
+            if ok and rng.random() < 0.5:
+                self._cleanup_tree(before)
+                t0 = self.tree()
+                self.serial += 1
+                bare = b'ZB%d' % self.serial
+                cb, _ = self.ex(b'DEF SEG=&HB800:BSAVE N$,0,8', case, N=bare)
+                bn = self.tree() - t0
+                self._cleanup_tree(before)
+                if cb == 0 and len(bn) == 1:
+                    ext = os.path.basename(sorted(bn)[0])[len(bare):]
+                    wantb = os.path.normpath(os.path.join(ddir, h if dotted else h + ext))
+                    cb2, _ = self.ex(b'DEF SEG=&HB800:BSAVE N$,0,8', case, N=spec)
+                    bn2 = self.tree() - before
+                    if cb2 != 0 or bn2 != {wantb}:
+                        res.violation('defext:bsave-through-path-differs-from-bare-name',
+                                      'cwd %r: BSAVE %r created %r with a bare name, but BSAVE %r gave %s and created %r, expected %r' % (
+                                          cwd, bare, sorted(bn), spec, 'error %d' % cb2 if cb2 else 'no error', sorted(bn2), wantb), case)
+                        ok = False
+                    else:
+                        cb3, _ = self.ex(b'DEF SEG=&HB800:BLOAD N$,0', case, N=recap(rng, spec))
+                        if cb3 != 0:
+                            res.violation('defext:bsaved-through-path-not-bloaded', 'cwd %r: BSAVE %r created %r, BLOAD of a '
+                                          're-capitalised spelling gives error %d' % (cwd, spec, wantb, cb3), case)
+                            ok = False
+                        else:
+                            res.count('path_bsave_bload_ok')
+            return ok
+        finally:
+            self._cleanup_tree(before)
+            if cwd:
+                self.ex(b'CHDIR N$', case, N=b'\\')
+
     def special_bsave(self, rng, name, cls, data_code, accepted):
         """BSAVE / BLOAD with the same raw name: accepted exactly when the data-file statement accepted it; the one
         file BSAVE creates (its extension is not pinned) is found again by BLOAD under re-capitalisations."""
@@ -1049,13 +1250,16 @@ ILLEGAL_OPS = ['open_o', 'open_i', 'open_a', 'open_r', 'save', 'load', 'name_new
 def plan(tier, seed):
     shards = [{'kind': 'directed_legal', 'part': i, 'parts': 3} for i in range(3)]
     shards += [{'kind': 'directed_illegal'}, {'kind': 'directed_special'}, {'kind': 'directed_files'}]
+    shards += [{'kind': 'directed_paths', 'part': i, 'parts': 4} for i in range(4)]
     if tier == 'quick':
         for i in range(15):
             shards.append({'kind': 'history', 'part': i, 'n': 64})
         for i in range(2):
             shards.append({'kind': 'random_illegal', 'part': i, 'n': 1500})
         for i in range(3):
-            shards.append({'kind': 'random_special', 'part': i, 'n': 450})
+            shards.append({'kind': 'random_special', 'part': i, 'n': 380})
+        for i in range(3):
+            shards.append({'kind': 'random_paths', 'part': i, 'n': 200})
     else:
         for i in range(32):
             shards.append({'kind': 'history', 'part': i, 'n': 1000})
@@ -1063,6 +1267,8 @@ def plan(tier, seed):
             shards.append({'kind': 'random_illegal', 'part': i, 'n': 15000})
         for i in range(8):
             shards.append({'kind': 'random_special', 'part': i, 'n': 7500})
+        for i in range(8):
+            shards.append({'kind': 'random_paths', 'part': i, 'n': 5000})
     return shards
 
 
@@ -1077,6 +1283,10 @@ def run_shard(spec, res):
         return _directed_special(spec, res)
     if kind == 'directed_files':
         return _directed_files(spec, res)
+    if kind == 'directed_paths':
+        return _directed_paths(spec, res)
+    if kind == 'random_paths':
+        return _random_paths(spec, rng, res)
     if kind == 'history':
         return _history(spec, rng, res)
     if kind == 'random_illegal':
@@ -1183,6 +1393,44 @@ def _directed_files(spec, res):
                 mt.append(rng, hostname)
                 mt.read(rng, hostname)
                 mt.kill(rng, hostname)
+
+
+def _directed_paths(spec, res):
+    """Every prefix x every cwd x dot-less / dotted / padded base names (seed-independent)."""
+    rng = random.Random('C28:directed_paths:%d' % spec['part'])
+    combos = [(cwd, pre) for cwd in PATH_CWDS for pre in PATH_PREFIXES][spec['part']::spec['parts']]
+    with Mount(res) as mt:
+        n = 0
+        for cwd, pre in combos:
+            for base in (b'P', b'Prog%d' % n, b'p%d.x' % n, b'q%d.bas' % n, b'Pad%d  ' % n):
+                mt.path_program(rng, cwd, pre, base)
+                n += 1
+        mt.check_host('after the path table', {'op': 'end'})
+        res.sample({'kind': 'directed_paths', 'prefixes': PATH_PREFIXES[:8], 'cwds': PATH_CWDS})
+
+
+def _random_paths(spec, rng, res):
+    n = spec['n']
+    done = 0
+    while done < n:
+        with Mount(res, rng, n_random_pre=2) as mt:
+            for _ in range(120):
+                pre = rng.choice(PATH_PREFIXES) if rng.random() < 0.4 else gen_prefix(rng)
+                r = rng.random()
+                taken = mt.taken()
+                if r < 0.6:
+                    base = gen_legal(rng, taken, dotted=False)
+                elif r < 0.85:
+                    base = gen_legal(rng, taken, dotted=True)
+                else:
+                    base = gen_legal(rng, taken, dotted=False) + rng.choice([b' ', b'  ', b'\t', b'.'])
+                mt.path_program(rng, rng.choice(PATH_CWDS), pre, base)
+                done += 1
+                if done >= n:
+                    break
+            mt.check_host('after the path cases', {'op': 'end'})
+            if done <= 120:
+                res.sample({'kind': 'random_paths', 'example': pre + base})
 
 
 def _history(spec, rng, res):
